@@ -1,7 +1,7 @@
 (* C15 - layout and template comments between syntactic elements change nothing.  Theorems only. *)
 From Coq Require Import Lia.
 From Ructe Require Import Nom NomFacts Utf8 Spacelike Expression TemplateExpr Template Emit
-                          ParserProofs SpaceProofs TextProofs.
+                          ParserProofs SpaceProofs TextProofs RoundTrip.
 Local Open Scope list_scope.
 
 (* any run built from whitespace (space, tab, CR, LF: LF and CRLF line breaks alike) and closed
@@ -42,6 +42,33 @@ Proof.
   unfold pmap, pair, bind, preceded, bind, context, pmap. rewrite H1, H2, H3, H4. reflexivity.
 Qed.
 
+(* whole bodies: the declarative grammar [PI] (Proofs/RoundTrip.v) lets any layout the lexical parsers
+   skip stand at each position where the syntax allows it; two texts that derive the same AST are
+   parsed to that same AST, hence give byte-identical generated code *)
+Theorem layouts_of_one_ast_parse_alike : forall (E : nt -> parser bytes) (ln : nat), (forall x, good (E x)) ->
+  forall d l i1 i2 m, PIs E ln d l i1 [] -> PIs E ln d l i2 [] -> d < m ->
+  let body := many_till (context (b "Error in expression starting here:") (fun j => texpr_gram E ln m TE j)) end_of_file in
+  body i1 = Ok (l, tt) [] /\ body i2 = body i1.
+Proof.
+  intros E ln HE d l i1 i2 m H1 H2 Hm body. unfold body.
+  rewrite (body_complete E HE ln d l i1 m H1 Hm), (body_complete E HE ln d l i2 m H2 Hm). split; reflexivity.
+Qed.
+(* and where a derivation asks for "what spacelike skips", any syntactic layout will do *)
+Theorem layout_is_what_spacelike_skips : forall s rest : bytes, layout s -> stops rest -> spacelike (s ++ rest) = Ok tt rest.
+Proof. exact spacelike_skips_lemma. Qed.
+
+(* two layouts of one body (spaces, tab, LF, comments also ending in stars, at the positions the
+   syntax allows) derive the same AST *)
+Example two_layouts_one_ast :
+  let E0 := expr_gram 12 in
+  let ast := [TText (b "<p>"); TIf (b "a") [TText (b "x"); TExpr (b "b")] (Some [TText (b "y")]); TFor (b "v") (b "xs") [TExpr (b "v"); TText (b ",")];
+              TCall (b "wrap_html") [ARust (b "n"); ABody [TText (b "k")]; ABody []]; TText (b "@")] in
+  PIs E0 3 6 ast (b "<p>@if a {x@b} else {y}@for v in xs {@v,}@:wrap_html(n, {k}, {})@@") [] /\
+  PIs E0 3 6 ast (b "<p>@if   a" ++ [10%N] ++ b "{x@b}  @* c *@ else @**@ {y}@for v  in xs" ++ [9%N] ++ b "{@v,}@:wrap_html(n,{k}  ,  @* z **@{})@@") [].
+Proof.
+  intros E0 ast. unfold ast. split; (match goal with |- PIs _ _ _ ?a ?s _ => concrete a; concrete s end; pi_items).
+Qed.
+
 Example layouts :
   layout (b " " ++ [9%N; 13%N; 10%N] ++ b "@* c *@" ++ b "@*" ++ [10%N] ++ b " multi * @ line" ++ [10%N] ++ b "*@@**@@* x **@ ") /\
   stops (b "{") /\ stops (b "else") /\ stops (b "@if") /\ stops [].
@@ -59,4 +86,7 @@ Qed.
 Redirect "assumptions/C15.spacelike_skips" Print Assumptions spacelike_skips.
 Redirect "assumptions/C15.layout_irrelevant_at_spacelike" Print Assumptions layout_irrelevant_at_spacelike.
 Redirect "assumptions/C15.layout_irrelevant_after" Print Assumptions layout_irrelevant_after.
+Redirect "assumptions/C15.layouts_of_one_ast_parse_alike" Print Assumptions layouts_of_one_ast_parse_alike.
+Redirect "assumptions/C15.layout_is_what_spacelike_skips" Print Assumptions layout_is_what_spacelike_skips.
+Redirect "assumptions/C15.two_layouts_one_ast" Print Assumptions two_layouts_one_ast.
 Redirect "assumptions/C15.let_condition_respaced" Print Assumptions let_condition_respaced.
